@@ -9,7 +9,7 @@ PROP = "C05"
 CORR = "C06"
 IMPL = "C05"
 HEADER = c06.HEADER
-CASE_TYPE = "case06"
+CASE_TYPE = "case05"
 DRIVER = "corr_C05"
 WIDTH = 2
 SHARD = 1000
@@ -55,7 +55,13 @@ def gen_cases(tier, seed):
     return cases, meta
 
 
-literal = c06.literal
+def literal(c, o):
+    """the C06 literal plus the link map of the start node's subtree as read from the live objects"""
+    from props import mutcommon as mc
+    links = o.get("links") if isinstance(o, dict) else None
+    return L.tup(c06.literal(c, o), "None" if links is None else "(Some %s)" % mc.heap_lit(links))
+
+
 describe = c06.describe
 
 
